@@ -164,7 +164,7 @@ def concStep : List String → String
     let leg := match legacyCachePublish with | .cas => "cas" | .store => "store"
     let ab := match aberrantPublish with | .never => "never" | .outermost => "outermost" | .nestedEarly => "nestedEarly"
     let tim := match lazyTiming with | .afterAll => "afterAll" | .insideLoop => "insideLoop"
-    s!"lazy={pub}/{res}/{tim} legacy={leg} msginfo={showDcl (msgInfoCfg 0)} file={showDcl (fileCfg 0)} once={showDcl (onceCfg 0)} reg=locks:{(regCfg (fun _ => .lookup) (fun _ => 0)).readerLocks} aberrant={ab}"
+    s!"lazy={pub}/{res}/{tim} legacy={leg} msginfo={showDcl (msgInfoCfg 0)} file={showDcl (fileCfg 0)} once={showDcl (onceCfg 0)} reg=locks:{(regCfg (fun _ => .lookup) (fun _ => 0)).readerLocks} aberrant={ab} extinfo={showDcl (extInfoCfg 0)}"
   | "lazy" :: evs => match parseLazy evs with
     | some tr => runLazy 2 tr
     | none => "bad-op"
